@@ -5,5 +5,5 @@
 // property's bounded sweep of the real code
 //@pinfile file=cfgrammar/src/lib/yacc/firsts.rs sha=f7b328f92710afda
 //@pinfile file=cfgrammar/src/lib/yacc/follows.rs sha=b77476276b5ffb44
-//@pinfile file=cfgrammar/src/lib/yacc/grammar.rs sha=3ccc24d5c8f4f7f7
+//@pinfile file=cfgrammar/src/lib/yacc/grammar.rs sha=b2daa9fc80630f0d
 //@use prelude/tail.rs
